@@ -266,6 +266,7 @@ func defaultPolicy(ld *loaded, stubs map[string]*ssa.Function) *sym.Policy {
 			"go.uber.org/zap",
 			"go.opentelemetry.io/otel",
 			"log",
+			"github.com/ipld/go-ipld-prime/node/bindnode/registry",
 		},
 		Globals: map[string]func(*sym.Exec, types.Type) sym.Value{
 			"github.com/ipld/go-ipld-prime.Null": func(ex *sym.Exec, t types.Type) sym.Value {
@@ -388,9 +389,7 @@ func cmdCheck(args []string) int {
 		wg.Add(1)
 		go func(i int, h *harness) {
 			defer wg.Done()
-			sem <- struct{}{}
-			defer func() { <-sem }()
-			results[i] = runHarness(ld, h, stubs, *tier, *trace, *maxPaths)
+			results[i] = runHarness(ld, h, stubs, *tier, *trace, *maxPaths, sem)
 		}(i, h)
 	}
 	wg.Wait()
@@ -410,7 +409,51 @@ func optInt(h *harness, tier, key string, def int) int {
 	return def
 }
 
-func runHarness(ld *loaded, h *harness, stubs map[string]*ssa.Function, tier string, trace bool, maxPaths int) *harnessResult {
+// runHarness explores one harness with a static partition of its path tree over several workers.
+func runHarness(ld *loaded, h *harness, stubs map[string]*ssa.Function, tier string, trace bool, maxPaths int, sem chan struct{}) *harnessResult {
+	n0 := optInt(h, tier, "part0", 4)
+	n1 := optInt(h, tier, "part1", 2)
+	if h.opts["nopart"] != "" || trace {
+		n0, n1 = 1, 1
+	}
+	t0 := time.Now()
+	var wg sync.WaitGroup
+	parts := make([]*harnessResult, n0*n1)
+	for i0 := 0; i0 < n0; i0++ {
+		for i1 := 0; i1 < n1; i1++ {
+			wg.Add(1)
+			go func(i0, i1 int) {
+				defer wg.Done()
+				sem <- struct{}{}
+				defer func() { <-sem }()
+				parts[i0*n1+i1] = runWorker(ld, h, stubs, tier, trace, maxPaths, [2]int{i0, i1}, [2]int{n0, n1})
+			}(i0, i1)
+		}
+	}
+	wg.Wait()
+	res := parts[0]
+	for _, p := range parts[1:] {
+		if p.err != "" && res.err == "" {
+			res.err = p.err
+		}
+		if p.ex == nil || res.ex == nil {
+			continue
+		}
+		res.ex.Merge(p.ex)
+	}
+	res.wall = time.Since(t0).Seconds()
+	if res.ex != nil {
+		res.unreached = nil
+		for _, l := range h.reaches {
+			if res.ex.Stats.Reached[l] == 0 {
+				res.unreached = append(res.unreached, l)
+			}
+		}
+	}
+	return res
+}
+
+func runWorker(ld *loaded, h *harness, stubs map[string]*ssa.Function, tier string, trace bool, maxPaths int, pi, pc [2]int) *harnessResult {
 	res := &harnessResult{h: h}
 	t0 := time.Now()
 	pol := defaultPolicy(ld, stubs)
@@ -426,6 +469,8 @@ func runHarness(ld *loaded, h *harness, stubs map[string]*ssa.Function, tier str
 		Trace:      trace,
 		QueryMs:    map[string]int{"quick": 20000, "thorough": 120000}[tier],
 		CrossCheck: []string{"cvc5"},
+		PartIndex:  pi,
+		PartCount:  pc,
 	}
 	if tier == "thorough" {
 		cfg.CrossCheck = []string{"cvc5", "z3-new"}
@@ -539,6 +584,24 @@ func report(prop, tier string, seed int, results []*harnessResult, start time.Ti
 			"sched_points": st.SchedPoints, "max_decisions": st.MaxDecisions,
 			"bounds": r.h.opts,
 		})
+		fmt.Printf("  %-40s paths=%-6d instrs=%-9d obl=%-6d viol=%d ifconv=%d sched=%d wall=%.1fs\n", r.h.name, st.Paths, st.Instrs, st.Obligations, len(r.ex.Violations), st.IfConverted, st.SchedPoints, r.wall)
+		if os.Getenv("VERIF_PROFILE") != "" {
+			type kv struct {
+				k string
+				v int
+			}
+			var kvs []kv
+			for k, v := range st.ForkSites {
+				kvs = append(kvs, kv{k, v})
+			}
+			sort.Slice(kvs, func(i, j int) bool { return kvs[i].v > kvs[j].v })
+			for i, e := range kvs {
+				if i >= 14 {
+					break
+				}
+				fmt.Printf("      forks %-6d %s\n", e.v, e.k)
+			}
+		}
 		for i, v := range r.ex.Violations {
 			sig := v.Pos + " | " + v.Msg
 			matched := false
